@@ -4,6 +4,7 @@ package bytetree
 
 import (
 	"sync"
+	"sync/atomic"
 	"time"
 
 	"github.com/getlantern/bytemap"
@@ -31,6 +32,9 @@ type node struct {
 	edges      edges
 	data       []encoding.Sequence
 	removedFor []int64
+	// shared is 1 while a Copy of the tree references this node's data, in which
+	// case the data has to be copied before it is written to.
+	shared int32
 }
 
 type edge struct {
@@ -165,6 +169,9 @@ func (bt *Tree) Copy() *Tree {
 		nodes = nodes[1:]
 		nodeCopies = nodeCopies[1:]
 		for _, e := range n.edges {
+			if e.target.data != nil {
+				atomic.StoreInt32(&e.target.shared, 1)
+			}
 			cpt := &node{key: e.target.key, data: e.target.data}
 			cpn.edges = append(cpn.edges, &edge{label: e.label, target: cpt})
 			nodes = append(nodes, e.target)
@@ -231,6 +238,18 @@ nodeLoop:
 func (n *node) doUpdate(bt *Tree, fullKey []byte, vals []encoding.Sequence, params encoding.TSParams, metadata bytemap.ByteMap) int {
 	if n.data == nil {
 		n.data = make([]encoding.Sequence, len(bt.outExprs))
+	} else if atomic.LoadInt32(&n.shared) == 1 {
+		// A copy of this tree (i.e. a running query's snapshot) references our
+		// data. Updates happen in place, so copy before writing to keep the
+		// snapshot stable.
+		data := make([]encoding.Sequence, len(n.data))
+		for i, seq := range n.data {
+			if seq != nil {
+				data[i] = append(make(encoding.Sequence, 0, cap(seq)), seq...)
+			}
+		}
+		n.data = data
+		atomic.StoreInt32(&n.shared, 0)
 	}
 	bytesAdded := 0
 	if params != nil {
